@@ -306,7 +306,7 @@ def gen_malformed_op(rng, ctx, names, league, calls=faults.CALLS):
 def calls_params(rng, prop):
     return {
         "length": rng.choice([4, 8, 12, 20, 32, 32, 300] if rng.random() < 0.15 else [4, 8, 12, 20, 32]),
-        "players": rng.choice([6, 8, 12, 16]),
+        "players": rng.choice([6, 8, 12, 16, 40]),
         "population": rng.choice(["default", "mixed", "spread"]),
         "opt_rate": rng.choice([0.15, 0.35, 0.6]) if prop == "C14" else rng.choice([0.5, 0.8]),
         "threaded": rng.random() < (0.45 if prop == "C14" else 0.3),
@@ -316,6 +316,7 @@ def calls_params(rng, prop):
         "rule": rng.choice(["uniform", "skill", "upset", "tie"]),
         "pristine_refs": rng.random() < 0.25,
         "fixed_rosters": rng.random() < 0.4,
+        "shape": rng.choice([[4, 3], [4, 3], [4, 3], [6, 4], [8, 8]]),
         "p_other_model": rng.choice([0.0, 0.05, 0.15]),
     }
 
@@ -409,9 +410,9 @@ class CallsDriver:
             if op:
                 return op
         if r < 0.8:
-            return gen_rate_op(rng, ctx, self.league, names, p["opt_rate"], maker=p["maker"], rule=p["rule"], rosters=self.fixed_rosters(rng, names))
+            return gen_rate_op(rng, ctx, self.league, names, p["opt_rate"], shape=tuple(p.get("shape", (4, 3))), maker=p["maker"], rule=p["rule"], rosters=self.fixed_rosters(rng, names))
         if r < 0.95:
-            return gen_predict_op(rng, names, self.league, rosters=self.fixed_rosters(rng, names))
+            return gen_predict_op(rng, names, self.league, shape=tuple(p.get("shape", (4, 3))), rosters=self.fixed_rosters(rng, names))
         return {"op": "NEW", "name": "p%d" % len(names)}
 
     n_gen = 0
@@ -995,7 +996,7 @@ def c13_params(rng):
         "players": rng.choice([8, 12]),
         "population": rng.choice(["default", "mixed", "spread"]),
         "inject_every": rng.choice([2, 3, 5]),
-        "shape": rng.choice([[2, 1], [2, 2], [3, 2], [3, 3], [4, 2], [5, 1], [8, 8]]),
+        "shape": rng.choice([[2, 1], [2, 2], [3, 2], [3, 3], [4, 2], [5, 1], [6, 2], [7, 1], [8, 8]]),
         "opt_rate": 0.2,
     }
 
@@ -1062,8 +1063,20 @@ class RejectDriver:
         league.ensure(flat(names))
         league.reseed_out_of_domain(names, tau_zero=True)
         model_name = ctx.cfg["model"]
+        # a long-lived argument structure (outer list + roster lists) that the library has
+        # already ACCEPTED: in-place faults are written into these very list objects
+        accepted = league.teams_of(names)
+        for kind in ("win", "draw", "rank"):
+            call_outcome(lambda: do_predict(league.model, kind, accepted))
         for desc in op["faults"]:
-            teams = league.teams_of(names)
+            saved = None
+            if desc.get("inplace"):
+                league.teams_of(names)  # refresh the roster lists in place
+                teams = accepted
+                saved = (list(teams), [list(x) for x in teams])
+                ctx.count("inplace_faults")
+            else:
+                teams = league.teams_of(names)
             call, args, kw = faults.build_call(desc, model_name, teams)
             label = faults.fault_label(desc)
             objs = reachable_ratings([args, kw, teams])
@@ -1074,7 +1087,9 @@ class RejectDriver:
             ctx.fault("malformed")
             post_r = rating_digest(objs)
             post_m = model_state(league.model)
-            det = {"fault": desc, "teams": names, "snap": snap_teams(teams)}
+            if saved is not None:
+                faults.undo_inplace(teams, saved)
+            det = {"fault": desc, "teams": names, "snap": snap_teams(league.teams_of(names))}
             if st == "ok":
                 ctx.violation("C13/accepted:%s" % label, det)
             if not isinstance(val, (TypeError, ValueError)):
